@@ -77,6 +77,10 @@ def lean_gate(run, theorems):
         (' && lake env leanchecker Props DroopProofs' if run.tier == 'thorough' else '')
     cov['trusted_base'] = list(common.TRUSTED_BASE)
     run.theorems = theorems
+    if run.level == 'other' and theorems:
+        cov['explanation'] = ('partial: the theorems listed under "theorems" are proved (see lean/Props/%s.lean for what they cover and what is left); '
+                              'the rest of the property is decided by the correspondence between the Lean model and /repo, the compiled Lean '
+                              'oracle on implementation observations and implementation-vs-implementation re-runs (exploration, not proof)' % run.prop)
     if not theorems:
         # no theorem is claimed for this property yet: the evidence says so instead of posing as a proof
         cov['explanation'] = ('no property theorem registered in lean/theorems.json for this property yet: decided by the correspondence between the Lean '
